@@ -15,7 +15,7 @@ RULE = ("random over dtype (8 int + 2 float dtypes, float values exact quarter-i
         "Non-trivial: image not constant and neighbourhood/template has >=2 members Added: 7x7 and 2x7x7 neighbourhoods in ignore mode with ranks that are multiples of 7; 64-bit template_match inputs offset by 2**53+1 .. 2**63+7.")
 NOT_PROVED = ["std::nth_element is modelled by its specification (sorted position), not verified",
               "mean_filter's final double division sum/n is outside the model: compared against the correctly rounded quotient",
-              "template_match theorem is stated for integer dtypes in the no-overflow regime; bool/float by correspondence only"]
+              "template_match theorems: integer dtypes in the no-overflow regime (tm_at_spec) and boolean images (tm_at_bool: 1 iff the sum of squared differences is non-zero); float by correspondence only"]
 BUDGET_S = {"quick": 100, "thorough": 900}
 DTYPES = ["uint8", "int8", "uint16", "int16", "uint32", "int32", "uint64", "int64", "float32", "float64"]
 
